@@ -107,7 +107,9 @@ class HTTPConnection(Mapping[str, Any], MoreInfoFromHeaderMixin):
                 value,
             )
             for key, value in self._environ.items()
-            if key.startswith("HTTP_") or key in ("CONTENT_TYPE", "CONTENT_LENGTH")
+            if key.startswith("HTTP_")
+            # PEP 3333: these two "may be empty or absent" when the header is missing
+            or (key in ("CONTENT_TYPE", "CONTENT_LENGTH") and value != "")
         )
 
 
